@@ -585,6 +585,10 @@ func genDirs(w *world, o xferOpts) []*xferDir {
 					d.relType = ReliabilityTypeRexmit
 					d.relVal = 1
 				}
+				if o.prFragments && d.relType == ReliabilityTypeReliable {
+					d.relType = ReliabilityTypeRexmit
+					d.relVal = pick[uint32](tp, 0, 0, 1)
+				}
 				d.setRecvParams = tp.intn(2) == 0
 			}
 			n := 1 + tp.intn(o.maxMsgs)
@@ -592,6 +596,12 @@ func genDirs(w *world, o xferOpts) []*xferDir {
 			budget := o.maxBytes
 			for j := 0; j < n; j++ {
 				sz := sizeMix(tp, fragOf(from), maxMsgOf(from), big && j == 0)
+				if o.prFragments && tp.intn(4) != 0 {
+					sz = fragOf(from)*(1+tp.intn(3)) + 1 + tp.intn(fragOf(from))
+					if sz > maxMsgOf(from) {
+						sz = maxMsgOf(from)
+					}
+				}
 				if budget > 0 && sz > budget {
 					sz = 1 + budget/2
 				}
@@ -684,6 +694,7 @@ type xferOpts struct {
 	slowReaders         bool
 	deadlines           bool
 	oddWrites           bool
+	prFragments         bool // partially reliable streams only, messages of two to four fragments
 }
 
 // rtoMaxOf returns the configured RTO.max of an endpoint as a duration (the
